@@ -169,3 +169,107 @@ def prime_with_flipped_kinds(m, case, query):
         pass
     for name, spec, sens, kind in case["mods"]:
         m.set_modality(name, spec, sens, kind)
+
+
+# ---- short histories run BEFORE the real query inside the numerical checks ---------------------------------------
+# Results must not depend on them (C09).  They let the single-shot numerical checks see stale state keyed on too
+# little (instance or module caches, in-place edits).  All of them end in exactly the configuration of the case.
+def prime_params(m, case, query):
+    """perturb only the micro modifiers (then only one spread value), query, restore the real values"""
+    params = case.get("params") or {}
+    if not params:
+        return
+    micro = [k for k in params if k.endswith("_micro")]
+    steps = []
+    if micro:
+        steps.append({k: (0.25 if params[k] != 0.25 else 0.75) for k in micro})
+    first = next((k for k in params if k.endswith("_spread") or k.endswith("_growth")), None)
+    if first is not None:
+        steps.append({first: (0.375 if params[first] != 0.375 else 0.625)})
+    for kw in steps:
+        try:
+            m.set_params(**kw)
+            query(m)
+        except Exception:  # noqa: BLE001
+            pass
+        m.set_params(**params)
+
+
+def prime_modality_order(m, case, query):
+    """rotate the modality order (delete the first, re-add it at the end), query, rotate back to the original order"""
+    mods = case.get("mods") or []
+    if len(mods) < 2:
+        return
+    order = list(mods)
+
+    def rotate():
+        name, spec, sens, kind = order.pop(0)
+        m.del_modality(name)
+        m.set_modality(name, spec, sens, kind)
+        order.append([name, spec, sens, kind])
+    rotate()
+    try:
+        query(m)
+    except Exception:  # noqa: BLE001
+        pass
+    for _ in range(len(mods) - 1):
+        rotate()
+    assert [o[0] for o in order] == [x[0] for x in mods]
+
+
+def prime_inplace_modality_edit(m, case, query):
+    """set other spec/sens values through the attribute setters, query, set the real values the same way"""
+    for name, spec, sens, kind in case.get("mods") or []:
+        mod = m.get_modality(name)
+        mod.spec = 1.0 if spec != 1.0 else 0.75
+        mod.sens = 0.625 if sens != 0.625 else 0.875
+    try:
+        query(m)
+    except Exception:  # noqa: BLE001
+        pass
+    for name, spec, sens, kind in case.get("mods") or []:
+        mod = m.get_modality(name)
+        mod.spec = spec
+        mod.sens = sens
+
+
+def build_uni_via_other_max_time(case: dict, delta: int = 2):
+    """build the model with another max_time, set the parametric distributions, query once, then change max_time to the
+    case's value and (re)set the frozen distributions (they cannot follow a max_time change)"""
+    c0 = dict(case)
+    c0["max_time"] = case.get("max_time", 10) + delta
+    c0["dists"] = {t: d for t, d in case.get("dists", {}).items() if "frozen" not in d}
+    m = build_uni(c0)
+    try:
+        for t in c0["dists"]:
+            m.state_dist(t)
+    except Exception:  # noqa: BLE001
+        pass
+    m.max_time = case.get("max_time", 10)
+    for t, d in case.get("dists", {}).items():
+        if "frozen" in d:
+            apply_dist(m, t, d)
+    # dict order of the distributions must be the case's order: re-insert in order
+    order = list(case.get("dists", {}))
+    if list(m.get_all_distributions()) != order:
+        saved = {t: m.get_distribution(t) for t in order}
+        m.clear_distributions()
+        for t in order:
+            if "frozen" in case["dists"][t]:
+                apply_dist(m, t, case["dists"][t])
+            else:
+                m.set_distribution(t, saved[t])
+    return m
+
+
+def run_primes(m, case, query, primes):
+    """run the given priming histories in an order that varies from case to case (deterministically): which stale entry
+    survives depends on what was queried first"""
+    import hashlib
+    import json
+    import random as _random
+    seed = int(hashlib.sha1(json.dumps(case, sort_keys=True, default=str).encode()).hexdigest()[:8], 16)
+    order = list(primes)
+    _random.Random(seed).shuffle(order)
+    for prime in order:
+        prime(m, case, query)
